@@ -219,6 +219,95 @@ fn run_json_malformed(cx: &mut CaseCx, _case: &Value) {
   cx.sample(json!({"valid_json": good.to_string().chars().take(100).collect::<String>()}));
 }
 
+
+/// proof scalars at the group-order boundary; every write-failure point of the JSON serialisation
+fn run_boundaries(cx: &mut CaseCx, _case: &Value) {
+  use curve25519_dalek::scalar::Scalar;
+  cx.entropy(660);
+  let server = pp::Server::new(vec![1, 2]).expect("server");
+  let (blinded, _) = pp::Client::blind(b"x");
+  let ev = server.eval(&blinded, 1, true).expect("eval");
+  let prb = ev.proof.as_ref().unwrap().serialize_to_bincode().unwrap();
+  // l = 2^252 + 27742317777372353535851937790883648493, little endian
+  let lm1 = (Scalar::ZERO - Scalar::ONE).to_bytes();
+  let mut l = lm1;
+  l[0] = l[0].wrapping_add(1); // l-1 ends in ...ec, no carry
+  let mut lp1 = l;
+  lp1[0] = lp1[0].wrapping_add(1);
+  let cands: Vec<(&str, [u8; 32], bool)> = vec![("0", [0u8; 32], true), ("1", { let mut b = [0u8; 32]; b[0] = 1; b }, true), ("l-1", lm1, true), ("l (the group order)", l, false), ("l+1", lp1, false), ("2^255-1", { let mut b = [0xffu8; 32]; b[31] = 0x7f; b }, false), ("2^256-1", [0xffu8; 32], false), ("2^252", { let mut b = [0u8; 32]; b[31] = 0x10; b }, true), ("2^253", { let mut b = [0u8; 32]; b[31] = 0x20; b }, false)];
+  for which in ["c", "s"] {
+    for (name, val, canonical) in &cands {
+      let mut b = prb.clone();
+      let at = if which == "c" { 0 } else { 32 };
+      b[at..at + 32].copy_from_slice(val);
+      cx.eval();
+      cx.nontrivial(fnv(&b));
+      match guard(|| pp::ProofDLEQ::load_from_bincode(&b).map(|p| p.serialize_to_bincode().ok())) {
+        Err(p) => cx.viol("C15/load-panicked", p, json!({"scalar": which, "value": name})),
+        Ok(Ok(re)) => {
+          if !canonical {
+            cx.viol("C15/non-canonical-scalar-accepted", format!("a proof whose scalar {} is {} (not a canonical encoding) was loaded; it re-serialises to {} bytes {}", which, name, re.as_ref().map(|r| r.len()).unwrap_or(0), if re.as_ref() == Some(&b) { "identical" } else { "DIFFERENT from the input" }), json!({"scalar": which, "value": name}));
+          } else if re.as_ref() != Some(&b) {
+            cx.viol("C15/proof-roundtrip-differs", format!("serialize(load(b)) != b for a proof with {} = {}", which, name), json!({"scalar": which, "value": name}));
+          } else {
+            cx.count("scalars_accepted", 1);
+          }
+        }
+        Ok(Err(_)) => {
+          if *canonical {
+            cx.viol("C15/proof-load-failed", format!("a proof with the canonical scalar {} = {} was refused", which, name), json!({"scalar": which, "value": name}));
+          } else {
+            cx.count("scalars_refused", 1);
+          }
+        }
+      }
+    }
+  }
+  // a writer that fails after n bytes, for EVERY n: the failed attempt must leave nothing behind
+  struct Failing {
+    left: usize,
+  }
+  impl std::io::Write for Failing {
+    fn write(&mut self, b: &[u8]) -> std::io::Result<usize> {
+      if self.left == 0 {
+        return Err(std::io::Error::new(std::io::ErrorKind::Other, "disk full"));
+      }
+      let n = b.len().min(self.left);
+      self.left -= n;
+      Ok(n)
+    }
+    fn flush(&mut self) -> std::io::Result<()> {
+      Ok(())
+    }
+  }
+  let (b2, _) = pp::Client::blind(b"y");
+  let ev2 = server.eval(&b2, 2, false).expect("eval");
+  let want1 = serde_json::to_string(&ev).unwrap();
+  let want2 = serde_json::to_string(&ev2).unwrap();
+  for n in 0..want1.len() {
+    cx.eval();
+    let r = guard(|| serde_json::to_writer(Failing { left: n }, &ev).is_err());
+    if r != Ok(true) {
+      cx.viol("C15/json-failed-write", format!("writing an evaluation to a sink that fails after {} bytes: {:?}", n, r), json!({"fail_after": n}));
+      continue;
+    }
+    // the next serialisations on this thread are unaffected by the failed one
+    let got2 = guard(|| serde_json::to_string(&ev2).ok());
+    let got1 = guard(|| serde_json::to_string(&ev).ok());
+    if got2 != Ok(Some(want2.clone())) || got1 != Ok(Some(want1.clone())) {
+      cx.viol("C15/json-after-failed-write", format!("after a write that failed at byte {}, the next evaluation serialises to a different JSON text (state left behind by the failed serialisation)", n), json!({"fail_after": n, "got": format!("{:?}", got2).chars().take(160).collect::<String>(), "want": want2.chars().take(100).collect::<String>()}));
+      break;
+    }
+    match serde_json::from_str::<pp::Evaluation>(&want2) {
+      Ok(e) if e.output == ev2.output => cx.count("failure_points_checked", 1),
+      _ => cx.viol("C15/evaluation-json-load-failed", "valid JSON no longer restores", json!({"fail_after": n})),
+    }
+  }
+  // same for the size-limited binary form of the public key
+  cx.outcome("boundaries and failure points");
+  cx.sample(json!({"scalar_values": cands.iter().map(|c| c.0).collect::<Vec<_>>(), "json_failure_points": want1.len()}));
+}
+
 fn run_limits(cx: &mut CaseCx, _case: &Value) {
   cx.entropy(700);
   let server = pp::Server::new((0..=255u8).collect()).expect("server");
@@ -317,6 +406,13 @@ pub fn spec() -> PropSpec {
         gen: |_| vec![json!({})],
         run: run_json_malformed,
         min_counts: &[("json_refused", 100), ("json_accepted", 1)],
+      },
+      Check {
+        name: "scalar-boundaries-and-write-failures",
+        rule: "proof scalars c, s replaced by 0, 1, l-1, l, l+1, 2^252, 2^253, 2^255-1, 2^256-1: loaded iff canonical (< l), and then re-serialised identically; JSON serialisation of an evaluation into a sink that fails after n bytes for EVERY n: error, and the following serialisations on the same thread are byte-identical to the reference",
+        gen: |_| vec![json!({})],
+        run: run_boundaries,
+        min_counts: &[("scalars_accepted", 8), ("scalars_refused", 8), ("failure_points_checked", 50)],
       },
       Check {
         name: "limits-and-truncations",
